@@ -459,7 +459,7 @@ def decode (tbl : LeafDec) : Schema → J → Except DErr Val
       match j with
       | .obj ms =>
         let key := match lookupAssoc ms d with
-          | some (.raw c) => some c
+          | some (.raw c) => if c.startsWith "\"" then some c else none   -- only a JSON string selects a variant
           | none => some "\"\""
           | _ => none
         match key with
